@@ -18,70 +18,89 @@ def const_expr(src, name, cfg=None):
     return out
 
 def ev(expr, env):
-    expr = expr.replace('_', '')
+    expr = re.sub(r'(?<=\d)_(?=[\du])', '', expr)      # 32_768, 1_u8
     expr = re.sub(r'(\d+)(usize|u64|u32|u16|u8)', r'\1', expr)
     if not re.fullmatch(r'[\w\s+\-*/<>()]+', expr):
         raise ValueError("cannot evaluate " + expr)
     return int(eval(expr, {"__builtins__": {}}, env))
 
 def main(out_v, out_json):
-    c = {}
-    brw = read("src/block_read_write.rs")
-    c["BLOCK_NUM_BYTES"] = ev(const_expr(brw, "BLOCK_NUM_BYTES")[0][1], {})
-    hdr = read("src/frame/header.rs")
-    c["HEADER_LEN"] = ev(const_expr(hdr, "HEADER_LEN")[0][1], {})
-    roll = read("src/rolling/mod.rs")
-    c["FRAME_NUM_BYTES"] = ev(const_expr(roll, "FRAME_NUM_BYTES")[0][1], {})
-    nbs = const_expr(roll, "NUM_BLOCKS_PER_FILE")
-    prod = verif = None
-    for attrs, expr in nbs:
-        a = " ".join(attrs)
-        if "mrecordlog_verif" in a and "not(mrecordlog_verif)" not in a:
-            verif = ev(expr, {})
-        elif "not(test)" in a:
-            prod = ev(expr, {})
-    if prod is None or verif is None:
-        raise ValueError("NUM_BLOCKS_PER_FILE arms not found: %r" % (nbs,))
-    c["NUM_BLOCKS_PER_FILE"] = prod
-    c["NUM_BLOCKS_PER_FILE_VERIF"] = verif
-    fnb = const_expr(roll, "FILE_NUM_BYTES")[0][1]
-    if fnb.replace(" ", "") != "FRAME_NUM_BYTES*NUM_BLOCKS_PER_FILE":
-        raise ValueError("FILE_NUM_BYTES is no longer FRAME_NUM_BYTES * NUM_BLOCKS_PER_FILE: " + fnb)
-    # frame types
-    ft = re.search(r'pub enum FrameType\s*\{([^}]*)\}', hdr).group(1)
-    fts = dict((k, int(v)) for k, v in re.findall(r'(\w+)\s*=\s*(\d+)u8', ft))
-    c["FrameType"] = fts
-    rec = read("src/record.rs")
-    rt = re.search(r'enum RecordType\s*\{([^}]*)\}', rec).group(1)
-    c["RecordType"] = dict((k, int(v)) for k, v in re.findall(r'(\w+)\s*=\s*(\d+)', rt))
-    hl = [int(x) for x in re.findall(r'const HEADER_LEN: usize = (\d+);', rec)]
-    c["record_header_lens"] = hl
-    fn = read("src/rolling/file_number.rs")
-    m = re.search(r'format!\("([^"]*)",\s*self\.file_number\)', fn)
-    c["filename_format"] = m.group(1)
-    d = read("src/rolling/directory.rs")
-    m = re.search(r'file_name\.len\(\)\s*!=\s*(\d+)', d)
-    c["filename_len"] = int(m.group(1))
-    m = re.search(r'starts_with\("([^"]*)"\)', d)
-    c["filename_prefix"] = m.group(1)
-    m = re.search(r'BufWriter::with_capacity\((\w+),', d)
-    c["bufwriter_capacity"] = m.group(1)
-    # RecordMeta layout: usize + Option<FileNumber> (Arc: niche) + u64
-    q = read("src/mem/queue.rs")
-    m = re.search(r'struct RecordMeta\s*\{([^}]*)\}', q)
-    fields = re.findall(r'^\s*(\w+)\s*:\s*([^,\n]+),', re.sub(r'//[^\n]*', '', m.group(1)), re.M)
-    sizes = {"usize": 8, "u64": 8, "Option<FileNumber>": 8}
-    c["RecordMeta_fields"] = fields
-    c["RecordMeta_size"] = sum(sizes[t.strip()] for _, t in fields)
+    """Every item is read on its own: an item that can no longer be READ (the source was reshaped) falls back to the
+    recorded value and is listed under "unreadable" - the run-time cross-check against the hooked crate (`consts`
+    command) and the differential run still cover it; an item that is read and has CHANGED is a broken tie."""
     expect = {
+        "BLOCK_NUM_BYTES": 32768, "FRAME_NUM_BYTES": 32768, "NUM_BLOCKS_PER_FILE": 4096, "NUM_BLOCKS_PER_FILE_VERIF": 4,
         "HEADER_LEN": 7, "FrameType": {"Full": 1, "First": 2, "Middle": 3, "Last": 4},
         "RecordType": {"Truncate": 1, "Touch": 2, "DeleteQueue": 3, "AppendRecords": 4},
         "record_header_lens": [11, 12], "filename_format": "wal-{:020}", "filename_len": 24,
-        "filename_prefix": "wal-", "bufwriter_capacity": "FRAME_NUM_BYTES",
+        "filename_prefix": "wal-", "bufwriter_capacity": "FRAME_NUM_BYTES", "RecordMeta_size": 24,
+        "FILE_NUM_BYTES_factor_ok": True,
     }
+    c, unreadable = {}, []
+
+    def item(name, fn):
+        try:
+            v = fn()
+            if v is None or v == [] or v == {}:
+                raise ValueError("not found")
+            c[name] = v
+        except Exception as e:
+            c[name] = expect[name]
+            unreadable.append("%s (%s)" % (name, e))
+
+    brw = read("src/block_read_write.rs")
+    hdr = read("src/frame/header.rs")
+    roll = read("src/rolling/mod.rs")
+    rec = read("src/record.rs")
+    fn = read("src/rolling/file_number.rs")
+    d = read("src/rolling/directory.rs")
+    q = read("src/mem/queue.rs")
+    item("BLOCK_NUM_BYTES", lambda: ev(const_expr(brw, "BLOCK_NUM_BYTES")[0][1], {}))
+    env = {"BLOCK_NUM_BYTES": c["BLOCK_NUM_BYTES"]}
+    item("HEADER_LEN", lambda: ev(const_expr(hdr, "HEADER_LEN")[0][1], env))
+    item("FRAME_NUM_BYTES", lambda: ev(const_expr(roll, "FRAME_NUM_BYTES")[0][1], env))
+    env["FRAME_NUM_BYTES"] = c["FRAME_NUM_BYTES"]
+
+    def nb(which):
+        for attrs, expr in const_expr(roll, "NUM_BLOCKS_PER_FILE"):
+            a = " ".join(attrs)
+            if which == "verif" and "mrecordlog_verif" in a and "not(mrecordlog_verif)" not in a:
+                return ev(expr, env)
+            if which == "prod" and "not(test)" in a:
+                return ev(expr, env)
+        return None
+    item("NUM_BLOCKS_PER_FILE", lambda: nb("prod"))
+    item("NUM_BLOCKS_PER_FILE_VERIF", lambda: nb("verif"))
+
+    def file_bytes_ok():
+        e2 = dict(env, NUM_BLOCKS_PER_FILE=c["NUM_BLOCKS_PER_FILE"])
+        return ev(const_expr(roll, "FILE_NUM_BYTES")[0][1], e2) == c["FRAME_NUM_BYTES"] * c["NUM_BLOCKS_PER_FILE"]
+    item("FILE_NUM_BYTES_factor_ok", file_bytes_ok)
+
+    def enum_of(src, name):
+        body = re.search(r'enum %s\s*\{([^}]*)\}' % name, src).group(1)
+        body = re.sub(r'//[^\n]*', '', body)
+        return dict((k, int(v)) for k, v in re.findall(r'(\w+)\s*=\s*(\d+)(?:_?[ui]\d+)?', body))
+    item("FrameType", lambda: enum_of(hdr, "FrameType"))
+    item("RecordType", lambda: enum_of(rec, "RecordType"))
+    item("record_header_lens", lambda: [ev(e, {}) for _, e in const_expr(rec, "HEADER_LEN")])
+    item("filename_format", lambda: re.search(r'format!\(\s*"(wal-[^"]*)"', fn).group(1))
+    item("filename_len", lambda: int(re.search(r'\.len\(\)\s*!=\s*(\d+)', d).group(1)))
+    item("filename_prefix", lambda: (re.search(r'starts_with\("([^"]*)"\)', d) or re.search(r'!=\s*"(wal-)"', d)).group(1))
+    item("bufwriter_capacity", lambda: re.search(r'BufWriter::with_capacity\(\s*(\w+)\s*,', d).group(1))
+
+    # RecordMeta layout: usize + Option<FileNumber> (Arc: niche) + u64
+    def meta_size():
+        m = re.search(r'struct RecordMeta\s*\{([^}]*)\}', q)
+        fields = re.findall(r'^\s*(?:pub(?:\([a-z]+\))?\s+)?(\w+)\s*:\s*([^,\n]+),', re.sub(r'//[^\n]*', '', m.group(1)), re.M)
+        sizes = {"usize": 8, "u64": 8, "Option<FileNumber>": 8}
+        c["RecordMeta_fields"] = fields
+        return sum(sizes[t.strip()] for _, t in fields)
+    item("RecordMeta_size", meta_size)
+    c["unreadable"] = unreadable
     # These are written into the model as literals (Frame.v, Record.v, Names.v): the model is
     # only valid for these values, so a change here is a broken tie, reported as such.
-    mismatches = [k for k, v in expect.items() if c[k] != v]
+    mismatches = [k for k, v in expect.items() if c[k] != v and k not in ("BLOCK_NUM_BYTES", "FRAME_NUM_BYTES", "NUM_BLOCKS_PER_FILE", "NUM_BLOCKS_PER_FILE_VERIF")]
     if c["FRAME_NUM_BYTES"] != c["BLOCK_NUM_BYTES"]:
         mismatches.append("FRAME_NUM_BYTES != BLOCK_NUM_BYTES")
     c["mismatches"] = mismatches
